@@ -161,7 +161,8 @@ def h_from_satoshi_str(ex, den, symb, network, code, nmax=MAX_SAT):
         ex.check(N == n * int(scale), 'str-digits-exact')
     else:
         # the format keeps at most 8 decimals: for denominators above 1 a smallest unit is not representable
-        ex.check(False, 'str-digits-exact', known=kf('C17-str-caps-decimals-at-8', True))
+        # (listed only where it applies: denominators above the main unit need more than 8 decimals)
+        ex.check(False, 'str-digits-exact', known=kf('C17-str-caps-decimals-at-8', c > 10 ** 8))
 
 
 def h_from_satoshi_default(ex, network):
@@ -263,6 +264,12 @@ def jobs(tier):
                 continue
             J.append(Job('from_satoshi_str_%s_%s' % (symb or 'unit', net), h_from_satoshi_str, W=8, setup=setup, incremental=False, optimistic=True,
                          params=dict(den=den, symb=symb, network=net, code=code, nmax=MAX_SAT if symb != 'k' else 3), budget_s=2400, timeout_ms=600000))
+    # the text form for the other denominators: amounts of 0..3 smallest units (the number of decimals printed is what
+    # differs between denominators; larger amounts time out in the float model)
+    for den, symb in dens.items():
+        if symb in ('m', 'c', 'd', 'da', 'h'):
+            J.append(Job('from_satoshi_str_%s_bitcoin_small' % symb, h_from_satoshi_str, W=8, setup=setup, incremental=False, optimistic=True,
+                         params=dict(den=den, symb=symb, network='bitcoin', code='BTC', nmax=3), budget_s=1200, timeout_ms=600000))
     for (net, code) in nets:
         J.append(Job('from_satoshi_default_%s' % net, h_from_satoshi_default, W=8, setup=setup, incremental=False, optimistic=True, params=dict(network=net), budget_s=1200))
     J.append(Job('add_output', h_add_output, W=8, setup=setup, incremental=False, optimistic=True, budget_s=1200))
